@@ -22,7 +22,7 @@ REQUIRED = ["pairs_checked", "mappings_validated", "maximum_checked", "direction
             "first_graph_larger", "optimum_smaller_than_pattern", "disconnected_pairs", "mtg_checked",
             "noninteger_order_pairs", "disconnected_optimum_beats_edge_bound", "mcs_mol_checked", "reused_matcher_checked",
             "option_pairs/prune_wc", "wildcard_pruning_flips_size_order", "pairs_with_omitted_default_attributes",
-            "pairs_with_non_numeric_bond_labels"]
+            "pairs_with_non_numeric_bond_labels", "pairs_with_element_free_selection", "pairs_with_two_bond_labels"]
 ASSUMPTIONS = [
     "common subgraph = common induced subgraph (bond present iff present, equal order), as the statement says",
     "edge orders compared numerically (float equality), node labels by the configured attributes",
@@ -192,13 +192,16 @@ def check_pair(ctx, G1, G2, tag, key, node_attrs=("element",)):
              if (ctx.evaluations < 2 or rng.random() < 0.001) else None)
 
 
-def check_options_pair(ctx, G1, G2, tag, key, node_attrs, prune_wc):
+def check_options_pair(ctx, G1, G2, tag, key, node_attrs, prune_wc, edge_attrs=None):
     """Matcher.MCSMatcher on inputs with wildcard atoms (prune_wc on/off) or with default-valued attributes left out
     on some atoms.  With prune_wc=True the documented behaviour is: wildcard atoms are removed from both graphs
     (non-inplace) before the search, mappings refer to the original node ids."""
     from synkit.Graph.Matcher.mcs_matcher import MCSMatcher as M1
 
     node_ok, edge_ok = mk_ok(node_attrs)
+    if edge_attrs:
+        def edge_ok(p, h, _k=tuple(edge_attrs)):   # every selected bond label has to agree
+            return all(p.get(k) == h.get(k) for k in _k)
     P1, P2 = G1, G2
     if prune_wc:
         P1 = G1.subgraph([n for n, d in G1.nodes(data=True) if d.get("element") != "*"]).copy()
@@ -206,6 +209,9 @@ def check_options_pair(ctx, G1, G2, tag, key, node_attrs, prune_wc):
         if (G1.number_of_nodes() <= G2.number_of_nodes()) != (P1.number_of_nodes() <= P2.number_of_nodes()):
             ctx.count("wildcard_pruning_flips_size_order")
     wit = {"g1": WG.describe(G1), "g2": WG.describe(G2), "node_attrs": list(node_attrs), "prune_wc": prune_wc}
+    if edge_attrs:
+        wit["edge_attrs"] = list(edge_attrs)
+        wit["edge_labels"] = [[[u, v, [d.get(k) for k in edge_attrs]] for u, v, d in g.edges(data=True)] for g in (G1, G2)]
     d1, d2 = WG.gdigest(G1), WG.gdigest(G2)
     opt = optimum(P1, P2, node_ok, edge_ok) if min(len(P1), len(P2)) else 0
     defaults = ["*" if k == "element" else 0 for k in node_attrs]
@@ -213,7 +219,8 @@ def check_options_pair(ctx, G1, G2, tag, key, node_attrs, prune_wc):
     ctx.count("option_pairs/prune_wc" if prune_wc else "option_pairs/plain")
     for prune in (False, True):
         for mcs in (True, False):
-            m = M1(node_attrs=list(node_attrs), node_defaults=defaults, prune_automorphisms=prune, prune_wc=prune_wc)
+            m = M1(node_attrs=list(node_attrs), node_defaults=defaults, prune_automorphisms=prune, prune_wc=prune_wc,
+                   **({"edge_attrs": list(edge_attrs)} if edge_attrs else {}))
             m.find_common_subgraph(G1, G2, mcs=mcs)
             a = m.get_mappings("G1_to_G2")
             b = m.get_mappings("G2_to_G1")
@@ -312,6 +319,9 @@ def run(ctx):
         if any(float(d["order"]) != int(float(d["order"])) for g in (A, Bg) for _, _, d in g.edges(data=True)):
             ctx.count("noninteger_order_pairs")
         attrs = ("element",) if t % 3 else ("element", "charge")
+        if t % 7 == 3:
+            attrs = rng.choice([("charge",), ("hcount", "charge")])   # selections without the element
+            ctx.count("pairs_with_element_free_selection")
         check_pair(ctx, A, Bg, "random pairs (planted parts, copies, disconnected, aromatic orders)",
                    ("rnd", WG.describe(A), WG.describe(Bg), attrs), node_attrs=attrs)
         if t % 4 == 1:
@@ -326,6 +336,16 @@ def run(ctx):
             ctx.count("pairs_with_non_numeric_bond_labels")
             check_pair(ctx, relabel(A), relabel(Bg), "random pairs with non-numeric bond labels (order pairs / strings)",
                        ("nonnum", style, repr(WG.describe(A)), repr(WG.describe(Bg)), attrs), node_attrs=attrs)
+        if t % 5 == 2:
+            # two selected bond labels: a non-numeric tag first, the numeric order second (both have to be preserved)
+            def tagged(g):
+                h = g.copy()
+                for _, _, d in h.edges(data=True):
+                    d["tag"] = rng.choice(["ring", "chain"]) if rng.random() < 0.3 else "chain"
+                return h
+            ctx.count("pairs_with_two_bond_labels")
+            check_options_pair(ctx, tagged(A), tagged(Bg), "random pairs with two selected bond labels (string tag, order)",
+                               ("twolab", repr(WG.describe(A)), repr(WG.describe(Bg)), t), attrs, False, edge_attrs=("tag", "order"))
         if t % 2 == 0:
             # wildcard atoms (more of them in the smaller graph, so that pruning can flip which graph is the pattern)
             small_first = A.number_of_nodes() <= Bg.number_of_nodes()
@@ -345,6 +365,13 @@ def run(ctx):
 
 def replay(ctx, v):
     w = v["witness"]
+    if "prune_wc" in w and w.get("edge_attrs"):
+        gs = [WG.from_desc(w["g1"]), WG.from_desc(w["g2"])]
+        for g, labs in zip(gs, w["edge_labels"]):
+            for u, v2, vals in labs:
+                for k, val in zip(w["edge_attrs"], vals):
+                    g[u][v2][k] = val
+        return check_options_pair(ctx, gs[0], gs[1], "replay", ("replay",), tuple(w["node_attrs"]), bool(w["prune_wc"]), edge_attrs=tuple(w["edge_attrs"]))
     if "prune_wc" in w:
         return check_options_pair(ctx, WG.from_desc(w["g1"]), WG.from_desc(w["g2"]), "replay", ("replay",), tuple(w["node_attrs"]), bool(w["prune_wc"]))
     check_pair(ctx, WG.from_desc(w["g1"]), WG.from_desc(w["g2"]), "replay", ("replay",), node_attrs=tuple(w.get("node_attrs") or ("element",)))
